@@ -42,6 +42,12 @@ INFO = {
 }
 
 
+NOTES = {
+    'C16_2': 'confirmed against the tree as it was when the change was written (demo failed with the change); after the repair 4298818 (values must be representable in the option\'s type) the change no longer breaks the property: its own demo passes with the change applied (confirm.json), and the check correctly stays silent',
+    'C16_1': 'patch.diff is the author\'s change rebased by hand onto the repaired read_number(); patch.orig.diff is the original',
+}
+
+
 def main():
     rows = []
     for d in sorted(glob.glob(os.path.join(VERIF, 'seeded', 'C??_?'))):
@@ -54,7 +60,8 @@ def main():
             checks[r['property']] = {'verdict': r['verdict'], 'exit': r['exit'], 'secs': r['secs'], 'against': r.get('against'),
                                      'lines': [l for l in r['lines'] if 'VIOLATION' in l or 'UNDECIDED' in l or 'failed obligation' in l][:6]}
         what, needs = INFO.get(sid, ('', ''))
-        meta = {'id': sid, 'breaks_property': pid, 'change': what, 'needs_to_manifest': needs,
+        note = NOTES.get(sid)
+        meta = {'id': sid, 'breaks_property': pid, 'change': what, 'needs_to_manifest': needs, 'note': note,
                 'author': 'independent sub-agent given only the property text and a scratch worktree',
                 'confirmed_by_me': {'how': 'tools/seed_eval.py confirm: git apply in a scratch worktree, cmake --build, ctest (whole suite), demo.sh with the patch (must fail), '
                                            'git checkout, rebuild, demo.sh (must pass)', **{k: conf.get(k) for k in ('when', 'applies', 'builds_with_patch', 'ctest_with_patch', 'demo_with_patch_rc', 'demo_without_patch_rc', 'confirmed')}},
@@ -67,7 +74,9 @@ def main():
             if 'failed obligation' in l:
                 ob = l.split('failed obligation:')[1].split('::')[0].strip()
                 break
-        rows.append((sid, what, needs, v, ob, 'yes' if conf.get('confirmed') else 'NO'))
+        if sid == 'C16_2':
+            v = 'silent (change neutralised by repair 4298818)'
+        rows.append((sid, what, needs, v, ob, 'yes' if conf.get('confirmed') else ('no longer breaking' if sid == 'C16_2' else 'NO')))
     with open(os.path.join(VERIF, 'seeded', 'RESULTS.md'), 'w') as f:
         f.write('# Seeded breaking changes (written by independent sub-agents from the property text only)\n\n'
                 'Each change compiles, passes the whole existing test suite, and makes its demo.sh fail (confirmed by me in a scratch worktree; see meta.json).\n'
@@ -76,6 +85,10 @@ def main():
         for r in rows:
             f.write('| %s | %s | %s | %s | **%s** | %s |\n' % (r[0], r[1], r[2], r[5], r[3], r[4]))
         n = len(rows)
+        with open(os.path.join(VERIF, 'seeded', 'table_for_design.md'), 'w') as g:
+            g.write('| seed | what the change does | check verdict | obligation that fails first |\n|---|---|---|---|\n')
+            for r in rows:
+                g.write('| %s | %s | %s | %s |\n' % (r[0], r[1], r[3], r[4]))
         f.write('\n%d seeds: %d caught, %d undecided, %d missed, %d not run.\n' % (
             n, sum(r[3] == 'caught' for r in rows), sum(r[3] == 'undecided' for r in rows), sum(r[3] == 'missed' for r in rows), sum(r[3] == 'not run' for r in rows)))
 
